@@ -4,6 +4,8 @@ import (
 	"fmt"
 	"math"
 	"strings"
+	"sync"
+	"sync/atomic"
 
 	spg "go.1password.io/spg"
 
@@ -15,7 +17,7 @@ import (
 
 func c12Counts(tier string) (cases, per int) {
 	if tier == "thorough" {
-		return 2000, 10000
+		return 10000, 10000
 	}
 	return 208, 5000
 }
@@ -165,7 +167,79 @@ func c12Class(idx []byte, what string) string {
 	return what + ":" + k + "-" + par
 }
 
+// c12Concurrent: several goroutines decode different passwords at once; every result must still be a
+// function of its own arguments.
+func c12Concurrent(c *Ctx) {
+	type job struct {
+		pw  string
+		idx []byte
+	}
+	jobs := make([]job, 64)
+	for i := range jobs {
+		pw := c12Password(c.R)
+		jobs[i] = job{pw, c12ValidIndex(c.R, oracle.CharCount(pw), i%4 == 0)}
+	}
+	var mu sync.Mutex
+	var first *Violation
+	var wg sync.WaitGroup
+	var calls int64
+	for g := 0; g < 8; g++ {
+		wg.Add(1)
+		go func(g int) {
+			defer wg.Done()
+			for it := 0; it < 400; it++ {
+				j := jobs[(g*7+it)%len(jobs)]
+				var p spg.Password
+				var err error
+				var pan interface{}
+				func() {
+					defer func() { pan = recover() }()
+					p, err = spg.Tokenize(j.pw, spg.Indices(j.idx), 1)
+				}()
+				atomic.AddInt64(&calls, 1)
+				ref, ok := oracle.RefTokenize(j.pw, j.idx)
+				bad := ""
+				switch {
+				case pan != nil:
+					bad = fmt.Sprintf("panicked: %v", pan)
+				case err == nil && !ok:
+					bad = "accepted a malformed index"
+				case err == nil:
+					got := refToks(&p)
+					if len(got) != len(ref) {
+						bad = fmt.Sprintf("%d tokens, specification says %d", len(got), len(ref))
+					} else {
+						for i := range got {
+							if got[i] != ref[i] {
+								bad = fmt.Sprintf("token %d is %q, specification says %q", i, got[i].V, ref[i].V)
+								break
+							}
+						}
+					}
+				}
+				if bad != "" {
+					mu.Lock()
+					if first == nil {
+						first = &Violation{Class: "wrong-result-under-concurrent-callers", Msg: fmt.Sprintf("Tokenize(%q, %v) called from 8 goroutines at once: %s", j.pw, j.idx, bad)}
+					}
+					mu.Unlock()
+					return
+				}
+			}
+		}(g)
+	}
+	wg.Wait()
+	c.Exec(int(calls))
+	c.Count("concurrent_tokenize_calls", calls)
+	if first != nil {
+		c.Violate(first.Class, first.Msg, nil)
+	}
+}
+
 func c12Case(c *Ctx) {
+	if c.Case%16 == 5 {
+		c12Concurrent(c)
+	}
 	_, per := c12Counts(c.Tier)
 	entropies := []float32{0, 1, 41.5, -1, float32(math.Inf(1)), float32(math.Inf(-1)), math.Float32frombits(0x7fc00001), 3.4e38}
 	for k := 0; k < per; k++ {
